@@ -34,7 +34,7 @@ Qed.
 Print Assumptions C07_pages_partition_the_list.
 
 Section C07.
-Context {D SY : Type} (dops : dict_ops D) (sops : syl_ops SY) (conv : conv_fn).
+Context {D SY : Type} (dops : dict_ops D) (sops : syl_ops SY) (conv : conv_fn D).
 (* "well-formed dictionary" and layout hypotheses (the instance of the correspondence meets them: EdInstProofs) *)
 Variable dict_ok : D -> Prop.
 Hypothesis ok_lookup : forall d f, dict_ok d -> do_lookup dops d f [] = [].
